@@ -254,6 +254,7 @@ func checkC05(c *Check) {
 	// (C04-R2) — otherwise escrow says closed while the payment / deployment record says open
 	c.settleHandsOnPayments("R4", l.settleCore())
 	c.statePersistedRule("R4", l.pkgFuncs("x/escrow/keeper"))
+	c.paymentCreateGuards("R4", l.settleCore(), mutatingFuncs(l, l.pkgFuncs("x/escrow/keeper")))
 	{
 		fn := l.Func("x/market/hooks", "hooks", "OnEscrowAccountClosed")
 		c.Analysed(fnName(fn))
